@@ -313,6 +313,9 @@ def run(facts, tier, ctx):
                                     "the channel assignment is changed at %s: %s" % (where, why)))
     st.require_floor(2, "definitions of the selected channel assignment")
     out.append(st)
+    # the guards compare count_bits() values: those are the emitted sizes only if write == count_bits (C08)
+    from . import c08
+    out += c08.size_rules(facts)
     return out
 
 
